@@ -541,3 +541,6 @@ def check(ctx: Ctx) -> None:
     with ctx.borrowed({"R11.4": "R5.8"}):
         c11.r11_4(ctx)
     r5_10(ctx)
+    from .common import falsy_numeric
+    falsy_numeric(ctx, "R5.11", r"position|index|_id$|_num$", "numeric action parameters (0 is a valid position / index)",
+                  scope=("src/primaite/game/agent/actions/", "src/primaite/game/agent/interface.py"))
